@@ -70,6 +70,8 @@ trait HQ: Sized + Clone {
     fn de_value(v: serde_json::Value) -> Result<Self, String>;
     /// serde's own MapDeserializer over the pairs (it announces its length)
     fn de_map(v: Vec<(K, P)>) -> Result<Self, String>;
+    /// `Deserialize::deserialize_in_place` into an existing queue
+    fn de_in_place(&mut self, v: serde_json::Value) -> Result<(), String>;
     fn roundtrip(self) -> Self;
     /// priorities of the sorted outputs: (descending vec, ascending vec if offered)
     fn sorted_desc(self) -> Vec<(K, P)>;
@@ -194,6 +196,10 @@ macro_rules! common {
         }
         fn de_value(v: serde_json::Value) -> Result<Self, String> {
             serde_json::from_value(v).map_err(|e| e.to_string())
+        }
+        fn de_in_place(&mut self, v: serde_json::Value) -> Result<(), String> {
+            use serde::Deserialize;
+            Self::deserialize_in_place(v, self).map_err(|e| e.to_string())
         }
         fn de_map(v: Vec<(K, P)>) -> Result<Self, String> {
             use serde::de::value::{Error, MapDeserializer};
@@ -671,6 +677,19 @@ fn serde_checks<Q: HQ>(q: &Q, r: &mut Ref, cfg: Cfg, seed: u64, log: &mut Vec<St
     check_peeks(&same, r, Cfg { extreme: true, ..c })?;
     let back = Q::de_value(other.ser_value()).map_err(|e| format!("round trip (Value, back from the other kind) failed: {e}"))?;
     check_all(&back, r, c).map_err(|e| format!("round trip back from the other kind through Value: {e}"))?;
+    // in place, over a queue that already holds something else
+    let mut place = Q::new();
+    for i in 0..50u32 {
+        place.push(1_000_000 + i, i as P);
+    }
+    place.de_in_place(q.ser_value()).map_err(|e| format!("deserialize_in_place failed: {e}"))?;
+    check_all(&place, r, c).map_err(|e| format!("deserialize_in_place over a non-empty queue: {e}"))?;
+    check_peeks(&place, r, Cfg { extreme: true, ..c })?;
+    let mut place = <Q::Other as HQ>::new();
+    place.push(7, 7);
+    place.de_in_place(q.ser_value()).map_err(|e| format!("deserialize_in_place (other kind) failed: {e}"))?;
+    check_all(&place, r, c).map_err(|e| format!("deserialize_in_place as the other kind: {e}"))?;
+    check_peeks(&place, r, Cfg { extreme: true, ..c })?;
     let mut popper = back;
     let mut rr = r.clone();
     for _ in 0..500 {
@@ -685,6 +704,20 @@ fn serde_checks<Q: HQ>(q: &Q, r: &mut Ref, cfg: Cfg, seed: u64, log: &mut Vec<St
         let (k, p) = ents[(i * 7) % n];
         long.push((k, p + 1 + (i % 3) as P)); // every third item named again with another priority
     }
+    // the same with the repeats early and new items late
+    let mut early: Vec<(K, P)> = Vec::with_capacity(long.len());
+    for (i, (k, p)) in ents.iter().enumerate() {
+        early.push((*k, *p));
+        if i % 3 == 0 && i < n / 2 {
+            early.push((*k, p + 1));
+            if i % 9 == 0 {
+                early.push((ents[i / 2].0, p - 1));
+            }
+        }
+    }
+    de_result_ok(Q::de_value(serde_json::to_value(&early).unwrap()), &early, cfg, "pair sequence with early repeats (Value)")?;
+    de_result_ok(Q::de_map(early.clone()), &early, cfg, "pair sequence with early repeats (MapDeserializer)")?;
+    de_result_ok(<Q::Other as HQ>::de_text(&serde_json::to_string(&early).unwrap()), &early, cfg, "pair sequence with early repeats (JSON text, other kind)")?;
     log.push(format!("deserializing {} pairs naming {} distinct items, three deserializer shapes, both kinds", long.len(), n));
     let tv = serde_json::to_string(&long).unwrap();
     de_result_ok(Q::de_text(&tv), &long, cfg, "long pair sequence with repeats (JSON text)")?;
